@@ -31,6 +31,7 @@ const (
 	eStr          // string literal
 	eSymLit       // integer literal whose value is symbolic (spelled 7001+k, replaced at AST level)
 	eFloat        // float literal (concrete spelling in s, value in f)
+	eNeg          // -a
 )
 
 type zzExpr struct {
@@ -52,6 +53,7 @@ func xFloat(spelling string, v float64) *zzExpr {
 	return &zzExpr{kind: eFloat, s: spelling, f: v}
 }
 
+func xNeg(a *zzExpr) *zzExpr           { return &zzExpr{kind: eNeg, a: a} }
 func xLit(k int64) *zzExpr             { return &zzExpr{kind: eLit, k: k} }
 func xVar(n string) *zzExpr            { return &zzExpr{kind: eVar, name: n} }
 func xBin(op string, a, b *zzExpr) *zzExpr { return &zzExpr{kind: eBin, op: op, a: a, b: b} }
@@ -66,6 +68,8 @@ func (e *zzExpr) text() string {
 		return strconv.FormatInt(e.k, 10)
 	case eVar:
 		return e.name
+	case eNeg:
+		return "(-" + e.a.text() + ")"
 	case eBin:
 		return "(" + e.a.text() + " " + e.op + " " + e.b.text() + ")"
 	case eTern:
@@ -334,6 +338,16 @@ func (r *zzRef) eval(e *zzExpr) zv {
 			v.arr = append(v.arr, zInt(k))
 		}
 		return v
+	case eNeg:
+		a := r.eval(e.a)
+		switch a.t {
+		case tInt:
+			return zInt(-a.i)
+		case tFloat:
+			return zFloat(-a.f)
+		}
+		r.failed = true
+		return zNull()
 	case eBin:
 		a, b := r.eval(e.a), r.eval(e.b)
 		if r.failed {
